@@ -29,6 +29,9 @@ def check_unmutated(ctx, where, args, snap, index=1):
     return before
 
 
+_REMOVE = object()
+
+
 class Probe:
     """A set of installed wrappers that can be removed again.  `busy` is the re-entrancy flag: while an oracle
     itself calls library code the monitors stay silent."""
@@ -52,8 +55,16 @@ class Probe:
         result, exception).  Both run with the monitors silenced; an exception inside them is recorded as a monitor
         error (which makes the run inconclusive), never propagated."""
         original = cls.__dict__.get(name)
-        if original is None:
-            raise AttributeError(f"{cls.__name__}.{name} is not defined on the class itself")
+        inherited = original is None
+        if inherited:
+            # the class takes the method from a base class: the wrapper is installed on this class only (calls through other
+            # subclasses of the base are not this hook's business) and removed again afterwards
+            for base in cls.__mro__[1:]:
+                if name in base.__dict__:
+                    original = base.__dict__[name]
+                    break
+            if original is None:
+                raise AttributeError(f"{cls.__name__}.{name} is not defined on the class or its bases")
         label = label or f"{cls.__name__}.{name}"
         self.calls.setdefault(label, 0)
         probe = self
@@ -107,7 +118,7 @@ class Probe:
         else:
             new = wrapper
         setattr(cls, name, new)
-        self._undo.append((cls, name, original))
+        self._undo.append((cls, name, _REMOVE if inherited else original))
         return func
 
     def wrap_property_setter(self, cls, name, after, label=None):
@@ -136,6 +147,12 @@ class Probe:
     def remove(self):
         while self._undo:
             cls, name, original = self._undo.pop()
+            if original is _REMOVE:
+                try:
+                    delattr(cls, name)
+                except AttributeError:
+                    pass
+                continue
             setattr(cls, name, original)
 
     def __enter__(self):
